@@ -68,7 +68,7 @@ class C11(Prop):
         cfgs = adapter.configs()
         if adapter.name in TL_ENVS:
             if tier == "quick":
-                keep = [c for c in cfgs if c.get("clock") and c.get("tl") in (1, 2, 3, None) and not c.get("long_default")]
+                keep = [c for c in cfgs if c.get("clock") and c.get("tl") in (1, 2, 3, 7, None) and not c.get("long_default")]
                 # the default limit on the default configuration and on the small one (a default that is clipped or derived
                 # from the instance size shows on the small instance only)
                 dflt = [c for c in cfgs if c.get("quick") and not c.get("clock")][:2]
